@@ -375,10 +375,18 @@ func (a *act) applyContract(fs *FuncSpec, fn *ssa.Function, args []Val, cs callS
 		henv := e.newEnv(a, pre)
 		henv.vars = env.vars
 		henv.fnScope = fn
+		wild := false
 		for _, c := range fs.Modifies {
 			if err := henv.havocTarget(c.E, post); err != nil {
 				a.specError(c, err)
 			}
+			if c.E.Op == "call" && c.E.Args[0].Op == "ident" && c.E.Args[0].Name == "all" {
+				wild = true
+			}
+		}
+		if wild {
+			// `modifies all(T.f)` havocs whole heap families; the caller's private memory is out of the callee's reach
+			a.keepPrivate(post, pre.heap, pre.epoch)
 		}
 		for _, gs := range fs.GhostSets {
 			if err := henv.havocTarget(gs.Target.E, post); err != nil {
